@@ -378,6 +378,8 @@ def utf8_encode(items, errors="strict"):
 
 
 def _nb(t, lo, hi):
+    if _real_isinstance(t, _real_int):
+        return t
     return V.note_bounds(z3.simplify(t), lo, hi)
 
 
